@@ -52,14 +52,36 @@ def run(ctx):
                 data = basicprog.encode(lines, be)
                 cases.append(vlib.Case(name, {'p.bbc': data}, ['--dialect', name, '--listo', '0', '@p.bbc'], tool='basic',
                                        meta={'dialect': name, 'listo': 0, 'want': basicprog.render(lines, tbls[canon], 0, dialect_idx=idx), 'nitems': 999, 'stdin': False}))
+    # several input files in one run: each file is listed as if it were alone (the indentation a program leaves behind - loops
+    # it never closes, or closes without opening - must not reach the next file), whether a file comes by name or as `-`
+    for name in bc.DIALECT_NAMES:
+        idx, be, canon = basicprog.DIALECTS[name]
+        tbl = tbls[canon]
+        toks, _, _ = basicprog.valid_tokens(tbl)
+        if not all(t in toks for t in (0xE3, 0xED, 0xF5, 0xFD, 0xF1)):
+            continue
+        T, L, I = (lambda t: basicprog.Item('tok', t)), basicprog.Line, (lambda c: basicprog.Item('lit', c))
+        opens = [L(10, [T(0xE3), I(73)]), L(20, [T(0xF5)]), L(30, [T(0xE3), I(74)]), L(40, [T(0xF1), I(73)])]        # FOR I / REPEAT / FOR J / PRINT I : ends 6 deep
+        closes = [L(10, [T(0xED)]), L(20, [T(0xFD), I(48)]), L(30, [T(0xF1), I(49)])]                                # NEXT / UNTIL 0 / PRINT 1 : ends below zero
+        plain = [L(10, [T(0xF1), basicprog.Item('str', b'HELLO', True)]), L(20, [T(0xE3), I(75)]), L(30, [T(0xED)])]
+        for (seq, listo) in (((opens, plain), 7), ((closes, plain), 7), ((plain, opens, plain), 2), ((opens, closes), 4), ((opens, plain), 0), ((closes, opens, plain), 6)):
+            files = {'f%d.bbc' % j: basicprog.encode(p_, be) for j, p_ in enumerate(seq)}
+            want = b''.join(basicprog.render(p_, tbl, listo, dialect_idx=idx) for p_ in seq)
+            meta = {'dialect': name, 'listo': listo, 'want': want, 'nitems': 9, 'stdin': False, 'multi': len(seq)}
+            cases.append(vlib.Case(name, files, ['--dialect', name, '--listo', str(listo)] + ['@f%d.bbc' % j for j in range(len(seq))], tool='basic', meta=meta))
+            # the last file on standard input
+            files2 = {k_: v_ for k_, v_ in list(files.items())[:-1]}
+            cases.append(vlib.Case(name, files2, ['--dialect', name, '--listo', str(listo)] + ['@f%d.bbc' % j for j in range(len(seq) - 1)] + ['-'], tool='basic',
+                                   stdin=basicprog.encode(seq[-1], be), meta=dict(meta, stdin=True)))
+            ctx.count('multi-file')
     vlib.run_cases(cases, bc.bins(impl))
     for c in cases:
         bc.compare(ctx, c, 'e2e-listing')
         m = c.meta
         i = c.impl
         ctx.oracle_cases += 1
-        ctx.case((m['dialect'], m['listo'], c.stdin or c.files.get('p.bbc')), m['nitems'] > 0,
-                 sample={'argv': [a.decode('latin-1') for a in c.real_argv], 'program_hex': (c.stdin or c.files.get('p.bbc')).hex()[:120]})
+        ctx.case((m['dialect'], m['listo'], m.get('multi'), c.stdin or c.files.get('p.bbc') or b''.join(c.files.values())), m['nitems'] > 0,
+                 sample={'argv': [a.decode('latin-1') for a in c.real_argv], 'program_hex': (c.stdin or c.files.get('p.bbc') or b''.join(c.files.values())).hex()[:120]})
         if common.crash_violation(ctx, c):
             continue
         if i['exit'] != 0 or i['out'] != m['want'] or i['err']:
